@@ -309,6 +309,32 @@ func isoFields(d *simdisk.Disk, start int64) []c18Field {
 			add(q+"nameLen", root+off+32, 1)
 			if rl > 40 {
 				add(q+"susp0", root+off+34+int64(d.Peek(root+off+32, 1)[0])|1, 2)
+				// the system use entries of the record (Rock Ridge): length, version and first payload byte of
+				// each, and the three words of a continuation entry
+				nl := int64(d.Peek(root+off+32, 1)[0])
+				su := root + off + 33 + nl
+				if nl%2 == 0 {
+					su++
+				}
+				for k := 0; k < 8 && su+4 <= root+off+rl; k++ {
+					e := d.Peek(su, 4)
+					l := int64(e[2])
+					if l < 4 || e[0] < 'A' || e[0] > 'Z' {
+						break
+					}
+					sq := fmt.Sprintf("%ssu.%s.", q, string(e[0:2]))
+					add(sq+"len", su+2, 1)
+					add(sq+"version", su+3, 1)
+					if l > 4 {
+						add(sq+"byte4", su+4, 1)
+					}
+					if string(e[0:2]) == "CE" && l >= 28 {
+						add(sq+"block", su+4, 4)
+						add(sq+"offset", su+12, 4)
+						add(sq+"length", su+20, 4)
+					}
+					su += l
+				}
 			}
 			off += rl
 		}
